@@ -128,8 +128,8 @@ def scenario(draw, feat=None):
         mx = draw(st.sampled_from([3.0, 4.0, 6.0, 8.0]))
         mn = draw(st.sampled_from([0.0, 0.0, 0.5, 1.0]))
         init = r(mn + (mx - mn) * draw(st.sampled_from([0.0, 0.0, 0.03, 0.25, 0.5, 0.5, 0.75, 0.97, 1.0, 1.0])), 3)
-        tau = draw(st.sampled_from([1.0, 2.0, 2.0, 4.0, 8.0]))
-        area = qm * tau * 3600.0 / (mx - mn) / nt
+        tau = draw(st.sampled_from([1.0, 2.0, 3.0, 4.0, 8.0]))
+        area = qm * tau * 3600.0 / (mx - mn) / (1.0 if nt == 1 else 1.5)
         diam = r(min(30.0, max(1.5, math.sqrt(4 * area / math.pi))), 2)
         area = math.pi * diam * diam / 4
         off = 0.0 if i == 0 else draw(st.sampled_from([-2.0, -0.5, 0.0, 0.5, 2.0]))
@@ -317,29 +317,45 @@ def controls(draw, spec, feat):
             c1 = press_cond(False)
             c2 = dict(c1)
             c2['op'] = draw(st.sampled_from(OPS_UP))
-            c2['thr'] = r(c1['thr'] + draw(st.sampled_from([8.0, 15.0, 30.0])), 2)
+            # the band must exceed the pressure change caused by switching the target itself (up to the pump lift),
+            # otherwise the post-solve loop alternates until the trial limit (run not converged)
+            c2['thr'] = r(c1['thr'] + draw(st.sampled_from([15.0, 30.0, 45.0] if target in feed else [8.0, 15.0, 30.0])), 2)
             add(c1, action(target, 'OPEN'))
             add(c2, action(target, 'CLOSED'))
     out = out[:max(n, 1)]
-    # two controls on one tank and one link with opposite directions, opposite commands and (nearly) the same
-    # threshold would switch the link every 1-2 s for the whole run: keep such thresholds apart
+    # Two controls on one tank and one link with opposite directions and opposite commands act as a switch without
+    # hysteresis when their true-regions touch or overlap (the link then toggles every 1-2 s for the rest of the run, in
+    # any engine): make every such pair a proper hysteresis band, "above" threshold >= "below" threshold + 10 % of range.
     tk = dict((t['name'], t) for t in tanks)
-    for j in range(len(out)):
-        cj = out[j]
-        if cj['node'] not in tk:
-            continue
-        t = tk[cj['node']]
-        gap = 0.08 * (t['max'] - t['min'])
-        shift = t['elev'] if cj['nattr'] == 'head' else 0.0
-        for i in range(j):
-            ci = out[i]
-            if ci['node'] != cj['node'] or ci['link'] != cj['link'] or ci['op'][0] == cj['op'][0]:
+
+    def lev(c, t):
+        return c['thr'] - (t['elev'] if c['nattr'] == 'head' else 0.0)
+
+    def setlev(c, t, x):
+        c['thr'] = r(x + (t['elev'] if c['nattr'] == 'head' else 0.0), 3)
+
+    for _ in range(2):
+        for j in range(len(out)):
+            cj = out[j]
+            if cj['node'] not in tk:
                 continue
-            if ci['attr'] == cj['attr'] and ci['value'] == cj['value']:
-                continue
-            li = ci['thr'] - (t['elev'] if ci['nattr'] == 'head' else 0.0)
-            if abs((cj['thr'] - shift) - li) < gap:
-                cj['thr'] = r(li + (1.25 * gap if cj['op'][0] == '>' else -1.25 * gap) + shift, 3)
+            t = tk[cj['node']]
+            gap = 0.1 * (t['max'] - t['min'])
+            for i in range(j):
+                ci = out[i]
+                if ci['node'] != cj['node'] or ci['link'] != cj['link'] or ci['op'][0] == cj['op'][0]:
+                    continue
+                if ci['attr'] == cj['attr'] and ci['value'] == cj['value']:
+                    continue
+                up, dn = (ci, cj) if ci['op'][0] == '>' else (cj, ci)
+                a, b = lev(up, t), lev(dn, t)
+                if a >= b + gap - 1e-9:
+                    continue
+                hi_, lo_ = max(a, b), min(a, b)
+                if hi_ - lo_ < gap:
+                    hi_ = lo_ + gap
+                setlev(up, t, hi_)
+                setlev(dn, t, lo_)
     return out
 
 
